@@ -26,6 +26,9 @@ pub mod rowserde;
 pub mod record;
 pub mod sql_autoinc;
 pub mod sql_cons;
+pub mod vec_exact;
+pub mod vecdist;
+pub mod hnsw;
 
 pub fn run(engine: &str, ctx: &Ctx) -> Report {
     match engine {
@@ -52,6 +55,8 @@ pub fn run(engine: &str, ctx: &Ctx) -> Report {
         "record" => record::run(ctx),
         "sql_autoinc" => sql_autoinc::run(ctx),
         "sql_cons" => sql_cons::run(ctx),
+        "vecdist" => vecdist::run(ctx),
+        "hnsw" => hnsw::run(ctx),
         _ => {
             eprintln!("unknown engine {engine}");
             std::process::exit(2);
